@@ -105,6 +105,8 @@ def oracle_resources(it):
         return "after every handle was dropped the process holds %d descriptors instead of %d" % (it["end"]["fds"], it["end"]["base_fds"])
     if it["end"]["maps"] != it["start"]["maps"]:
         return "shared mappings left behind: %s -> %s" % (it["start"]["maps"], it["end"]["maps"])
+    if it.get("nocloexec"):
+        return "a descriptor created or received by the library is not close-on-exec (an unrelated child would inherit it): %s" % it["nocloexec"][0]
     if it["ledger"] is not None and any(x.startswith("CBadClose") for x in it["ledger"]):
         return "the library closed a descriptor that was not open: %s" % [x for x in it["ledger"] if x.startswith("CBadClose")][:3]
     return None
@@ -209,6 +211,25 @@ def check_C04(chk):
                               "endpoint identified by probing; non-trivial = programs with embedded endpoints", False, S=4096)
     if not bins:
         return
+    # mixtures of senders, receivers and regions in one message, small and multi-packet (frag driver, identity probes)
+    from . import frag as F2
+    nid0 = itertools.count(1)
+    mix = []
+    cap, f = F2.ffs(4096), F2.fs(4096)
+    for ns in range(0, 4):
+        for nr in range(0, 3):
+            for nm in range(0, 4):
+                for L in (10, cap + 100, cap + 2 * f + 7):
+                    for lv in ("typed", "platform"):
+                        mix.append({"id": next(nid0), "len": L, "nsend": ns, "nrecv": nr, "nshm": nm, "level": lv})
+    mitems = F2.run_cases(bins["default"], 4096, mix)
+    for it in mitems:
+        why = F2.oracle(chk, it, True)
+        if why:
+            c = it["case"]
+            chk.failing_input("mixture of endpoints and regions: " + why, {"input": c, "observed": it["rec"]},
+                              key="mix:len=%d ns=%d nr=%d nm=%d %s" % (c["len"], c["nsend"], c["nrecv"], c["nshm"], c["level"]))
+    chk.coverage["mixture_cases"] = len(mitems)
     # positions inside values: valid encodings of the endpoint-bearing types
     rng = random.Random(chk.seed + 4)
     nid = itertools.count(1)
